@@ -316,6 +316,8 @@ class Evaluator:
     def qubit(self, base, index, bind):
         els = self.elems(base, bind)
         idx = self.val(index, bind, force=True)
+        if isinstance(idx, tuple) and idx[0] not in ("param", "let"):
+            raise MeaningError("not-an-integer", "index bound to %r" % (idx[:2],))
         if els is None or (isinstance(idx, tuple)):
             return None
         i = _as_int(idx, "index")
